@@ -496,7 +496,10 @@ def _r5(ctx, rep, se, cfg):
         if L in ("max_order_exposure", "max_selection_exposure"):
             oe_defs = [x for x in cfg.live_nodes() if x.kind == "stmt" and isinstance(x.ast, ast.Assign)
                        and "order_exposure" in [utext(t) for t in x.ast.targets]]
-            real = {x.id for x in oe_defs if not isinstance(x.ast.value, ast.Constant)}
+            # (a default of None is not silent: comparing it with the limit raises, and nothing is accepted)
+            real = {x.id for x in oe_defs if not (isinstance(x.ast.value, ast.Constant)
+                                                  and isinstance(x.ast.value.value, (int, float))
+                                                  and not isinstance(x.ast.value.value, bool))}
             for pt in ("PLACE", "REPLACE"):
                 blocked = set()
                 for x in conds:
